@@ -139,12 +139,12 @@ def _make_cases(ctx, j, payloads, rng):
             variants = ["u32low", "u64low"]
             if n % 4 == 0:
                 variants.append("u32mid")
-            if n % (8 if quick else 2) == 1:
+            if n % (12 if quick else 2) == 1:         # 4 MiB chunks: walking them costs
                 variants += ["u32top", "u64big"]
         elif fam == "xsmall":
             variants = ["u64", "u32"]
         elif fam == "xnwr":
-            variants = ["small"] if p["kind"] == "small" else (["dense64", "densedefault"] if n % 4 == 0 else ["dense64"])
+            variants = ["small"] if p["kind"] == "small" else (["dense64", "densedefault"] if n % (16 if quick else 4) == 0 else ["dense64"])
         else:
             variants = [""]
         for v in variants:
